@@ -93,6 +93,7 @@ pub fn apply(bytes: &[u8], nfds: usize, muts: &[RMut], gpu: bool) -> (Vec<u8>, u
     let mut b = bytes.to_vec();
     let mut n = nfds;
     let mut e = Expect::MustAccept;
+    let _ = &mut e;
     let mut truncated = false;
     let worst = |a: Expect, x: Expect| match (a, x) {
         (Expect::MustReject, _) | (_, Expect::MustReject) => Expect::MustReject,
@@ -164,6 +165,36 @@ pub fn apply(bytes: &[u8], nfds: usize, muts: &[RMut], gpu: bool) -> (Vec<u8>, u
             }
         }
     }
+    // the header-level expectation is judged on the final bytes (mutators may cancel each other)
+    let junk = muts.iter().any(|m| matches!(m, RMut::Junk(_)));
+    let e = if truncated {
+        Expect::MustReject
+    } else if junk || b.len() < 12 {
+        Expect::Either
+    } else {
+        let (code, flags, size) = spec::parse_hdr(&b);
+        let (_, _, osize) = spec::parse_hdr(bytes);
+        let mut e = Expect::MustAccept;
+        if code != orig_code || flags & 4 == 0 {
+            e = worst(e, Expect::MustReject);
+        }
+        if gpu {
+            if flags & !4 != 0 {
+                e = worst(e, Expect::MustReject);
+            }
+        } else {
+            if flags & 3 != 1 || flags & !0xf != 0 {
+                e = worst(e, Expect::MustReject);
+            }
+            if flags & 8 != 0 {
+                e = worst(e, Expect::Either);
+            }
+        }
+        if size != osize {
+            e = worst(e, Expect::Either);
+        }
+        e
+    };
     (b, n, e, truncated)
 }
 
